@@ -11,6 +11,7 @@ from .values import (V, VInt, VBool, VReal, VStr, VNone, VRef, VObj, VOpt,
                      is_nullable)
 from .source import assigned_names, loops_of
 from .state import Event, QHyp
+from .solve import entails as solve_entails
 
 
 class StmtMixin:
@@ -501,6 +502,9 @@ class StmtMixin:
         return res
 
     def cm_enter(self, cm, st, node):
+        if isinstance(cm, VNone):
+            st.notes.append(f"with None@{node.lineno}")
+            return [self.raise_new(st, "TypeError")]
         if isinstance(cm, VRef):
             return self.call_method(cm, "__enter__", [], {}, st, node)
         raise EngineError(f"with on {cm!r}")
@@ -686,10 +690,13 @@ class StmtMixin:
         targets = assigned_names(body_stmts)
         if kind == "for":
             targets |= {n.id for n in ast.walk(node.target) if isinstance(n, ast.Name)}
-        written = {"heap": set(), "ghost": set(), "globs": set(), "tags": set(), "locs": set()}
-        for attempt in range(6):
+        written = {"heap": {}, "ghost": set(), "globs": set(), "tags": set(), "locs": set()}
+        from .values import counter_value
+        for attempt in range(8):
             saved_results = self.results
             self.results = []
+            self._loop_counter0 = counter_value()
+            self._loop_alloc0 = st.alloc
             hav = st.clone()
             self.apply_havoc(hav, written, targets - set(inv.locals_), entry)
             if kind == "for":
@@ -732,14 +739,35 @@ class StmtMixin:
         from .state import initial_array
         for s2 in finals:
             for k, arrs in s2.heap.items():
-                if k[0] == "<obj>" or k in written["heap"]:
+                if k[0] == "<obj>":
                     continue
                 b = base_heap.get(k)
                 if b is None:
                     b = tuple(initial_array(k[0], k[1], i_, a_.sort().range()) for i_, a_ in enumerate(arrs))
-                if any(not x.eq(y) for x, y in zip(arrs, b)):
-                    written["heap"].add(k)
-                    grew = True
+                if all(x.eq(y) for x, y in zip(arrs, b)):
+                    continue
+                w = written["heap"].setdefault(k, {"addrs": [], "fresh": False, "whole": False})
+                if w["whole"]:
+                    continue
+                for x, y in zip(arrs, b):
+                    addrs = self._store_addrs(x, y)
+                    if addrs is None:
+                        w["whole"] = True
+                        grew = True
+                        break
+                    for a_ in addrs:
+                        if self._stable_term(a_):
+                            if not any(a_.eq(o_) for o_ in w["addrs"]):
+                                w["addrs"].append(a_)
+                                grew = True
+                        elif solve_entails(s2.pc, a_ >= self._loop_alloc0):
+                            if not w["fresh"]:
+                                w["fresh"] = True
+                                grew = True
+                        else:
+                            w["whole"] = True
+                            grew = True
+                            break
             for k, t in s2.ghost.items():
                 if k in written["ghost"]:
                     continue
@@ -766,6 +794,39 @@ class StmtMixin:
                     written["tags"].add(ev.tag)
                     grew = True
         return grew
+
+    def _store_addrs(self, arr, base):
+        """Addresses of the Store chain from `base` up to `arr` (None when
+        `arr` is not such a chain)."""
+        out = []
+        cur = arr
+        for _ in range(200):
+            if cur.eq(base):
+                return out
+            if z3.is_app(cur) and cur.decl().kind() == z3.Z3_OP_STORE:
+                out.append(cur.arg(1))
+                cur = cur.arg(0)
+                continue
+            return None
+        return None
+
+    def _stable_term(self, t):
+        """No symbol of the term was created during this loop attempt."""
+        todo = [t]
+        seen = set()
+        while todo:
+            e = todo.pop()
+            if e.get_id() in seen:
+                continue
+            seen.add(e.get_id())
+            if z3.is_const(e) and e.decl().kind() == z3.Z3_OP_UNINTERPRETED:
+                nm = e.decl().name()
+                if "!" in nm:
+                    tail_ = nm.rsplit("!", 1)[1]
+                    if tail_.isdigit() and int(tail_) > self._loop_counter0:
+                        return False
+            todo.extend(e.children())
+        return True
 
     def _same_value(self, a, b):
         ta = getattr(a, "t", None)
@@ -866,11 +927,25 @@ class StmtMixin:
         return self._int(v)
 
     def apply_havoc(self, st, written, targets, entry):
-        for k in written["heap"]:
+        for k, w in written["heap"].items():
             arrs = st.heap.get(k)
             if arrs is None:
+                from .state import initial_array
                 continue
-            st.heap[k] = tuple(fresh_const(f"hv_{k[0]}.{k[1]}", a.sort()) for a in arrs)
+            if w["whole"]:
+                st.heap[k] = tuple(fresh_const(f"hv_{k[0]}.{k[1]}", a.sort()) for a in arrs)
+                continue
+            new = []
+            for a in arrs:
+                cur = a
+                if w["fresh"]:
+                    fr = fresh_const(f"hv_{k[0]}.{k[1]}", a.sort())
+                    x = z3.Const(fresh_name("ha"), ty.IntS)
+                    cur = z3.Lambda([x], z3.If(x >= st.alloc, z3.Select(fr, x), z3.Select(a, x)))
+                for ad in w["addrs"]:
+                    cur = z3.Store(cur, ad, fresh_const(f"hv_{k[0]}.{k[1]}@", a.sort().range()))
+                new.append(cur)
+            st.heap[k] = tuple(new)
         for k in written["ghost"]:
             d = self.schema.ghosts[k]
             st.ghost[k] = fresh_const(f"hvG_{k}", d.sort)
